@@ -22,7 +22,7 @@ WithChangeOut(t, q, slen) ==
     ELSE [ok |-> TRUE, tx |-> [r.post EXCEPT !.outs = [k \in 1..Len(r.post.outs) |->
                                    IF k > Len(t.outs) THEN (r.post.outs[k] @@ [role |-> "change"]) ELSE t.outs[k]]]]
 
-\* ---- the four flows: result [ok, tx] or [ok |-> FALSE, why] -------------------------------------------
+\* ---- the flows: result [ok, tx] or [ok |-> FALSE, why] -------------------------------------------
 Listing(price, us, q, sl) ==
     IF Len(us) < 2 THEN [ok |-> FALSE, why |-> "utxos"]
     ELSE IF FirstAbove(us, price) = 0 THEN [ok |-> FALSE, why |-> "value"]
@@ -37,6 +37,33 @@ Listing2D(price, us, q, sl) ==
                     [k \in 1..(Len(us) - 2) |-> In("buyer", us[k + 2], FALSE, "p2pkh")]
              outs == <<Out("dummy", us[1] + us[2], 25), Out("buyerord", 1, 25), Out("seller", price, sl)>>
          IN WithChangeOut([ins |-> ins, outs |-> outs], q, 25)
+
+\* Bids: the bidder builds and signs (SINGLE) a transaction paying a placeholder P2PKH script;
+\* the ordinal input carries no value yet.  The seller swaps in the receive script (sl bytes),
+\* fills in the ordinal's value and signs it; the fee is checked on the completed transaction
+\* (as repaired in /repo).  SignedMax = every unlocking script at its 107-byte bound.
+SignedMax(t) == [t EXCEPT !.ins = [k \in 1..Len(t.ins) |-> [t.ins[k] EXCEPT !.ulen = 107]]]
+OrdIn(sats) == [owner |-> "seller", sats |-> sats, ord |-> TRUE, ulen |-> 0, kind |-> "inscr"]
+Accepted(c, ordIdx, sellerIdx, sl, minOuts) ==
+    IF ~c.ok THEN c
+    ELSE IF Len(c.tx.outs) < minOuts THEN [ok |-> FALSE, why |-> "offer"]
+    ELSE [ok |-> TRUE, tx |-> [c.tx EXCEPT !.outs[sellerIdx].slen = sl, !.ins[ordIdx].sats = 1]]
+Bid(price, us, q, sl) ==
+    IF Len(us) < 2 THEN [ok |-> FALSE, why |-> "utxos"]
+    ELSE IF FirstAbove(us, price) = 0 THEN [ok |-> FALSE, why |-> "value"]
+    ELSE LET u == Reordered(us, FirstAbove(us, price))
+             ins == <<In("buyer", u[1], FALSE, "p2pkh"), OrdIn(0)>> \o
+                    [k \in 1..(Len(u) - 1) |-> In("buyer", u[k + 1], FALSE, "p2pkh")]
+             outs == <<Out("dummy", u[1] - price, 25), Out("seller", price, 25), Out("buyerord", 1, 25)>>
+         IN Accepted(WithChangeOut([ins |-> ins, outs |-> outs], q, 25), 2, 2, sl, 3)
+\* two-dummy bid: acceptance insists on a change output (>= 4 outputs) and on a P2PKH receive script
+Bid2D(price, us, q, sl) ==
+    IF Len(us) < 3 THEN [ok |-> FALSE, why |-> "utxos"]
+    ELSE IF sl # 25 THEN [ok |-> FALSE, why |-> "script"]
+    ELSE LET ins == <<In("buyer", us[1], FALSE, "p2pkh"), In("buyer", us[2], FALSE, "p2pkh"), OrdIn(0)>> \o
+                    [k \in 1..(Len(us) - 2) |-> In("buyer", us[k + 2], FALSE, "p2pkh")]
+             outs == <<Out("dummy", us[1] + us[2], 25), Out("buyerord", 1, 25), Out("seller", price, 25)>>
+         IN Accepted(WithChangeOut([ins |-> ins, outs |-> outs], q, 25), 3, 3, sl, 4)
 
 \* ---- properties of a completed transaction t (roles as observed) ------------------------------------------
 OrdIdx(t) == CHOOSE i \in 1..Len(t.ins) : t.ins[i].ord
